@@ -425,6 +425,13 @@ def rules(rep, m):
         want = sorted({(t or "?").replace("const ", "").rstrip("* ").strip() for k_, t, fn, w_ in uses.get(gk, []) if k_ == "alloc"})
         rep.sample({"rule": "R-C20-6", "pool": g.name, "obj_sz": render(vals["obj_sz"]), "incr_num": render(vals["incr_num"]),
                     "objects_used_as": want})
+        if not g.tls:
+            rep.finding(r6, g.name, "static:not-thread-local", "static pool %s carries the CMI_THREAD_STATIC cookie but is not "
+                        "thread-local: all threads share its free list without synchronisation, and the thread that first used "
+                        "it frees all its chunks - including objects still live in other threads - when it exits" % g.name, where=where)
+            r6.fail()
+        else:
+            r6.ok()
         if not okc or not empties:
             rep.finding(r6, g.name, "static:state", "static pool %s does not start as {CMI_THREAD_STATIC, ..., empty chunk list, "
                         "empty free list}: the first allocation would not initialise it" % g.name, where=where)
